@@ -34,7 +34,7 @@ func lap(what string) {
 }
 
 func Run(c *core.Ctx) {
-	c.Rule = "programs: every .templ file of the repository (generator text tie) plus grammar-generated templ files (internal/tgen: all node kinds, six attribute kinds nested under conditionals, class/style/URL/spread sinks, if/else-if/else, for, switch, calls with and without blocks, children, hand-written callees, raw Go, comments, script/style elements with {{ }}, random single-/multi-line layout) plus templ files from the fragment grammar of the proof layer (tgen.Opts.Fragment: what coq/model/IrFragPrint.v's to_frag accepts), rendered with error-biased argument tuples, plus event-handler files (handlers.go: script templates with definitions called from on*/hx-on: attributes, the same attribute name in both branches of a conditional attribute with different scripts, plain next to conditional handlers, scripts reused across elements, loop iterations, callees and child blocks) plus long-static-run files (longrun.go: uninterrupted static markup of 1 KiB .. 64 KiB and more, mostly multi-byte text with quotes, backslashes and unprintable characters, the same content shifted by 0..3 bytes; every third of them not valid UTF-8) plus files that are NOT valid UTF-8 (nonutf8.go: Latin-1 and Windows-1252 text, lone continuation bytes, truncated, overlong and surrogate forms, bytes C0 C1 F5..FF, alone and next to valid multi-byte characters, in text, double- and single-quoted constant attribute values, HTML comments, one-line and multi-line style/script content, around {{ }} parts and in the doctype, each piece without and with a quote/backslash/control character, sequences split over two pieces; a one-line sweep position x kind first; script template bodies and css template constant values with such bytes); inputs: argument tuples from a pool of adversarial strings; distinct non-trivial = distinct (template, argument tuple) pairs rendered by the compiled generated code"
+	c.Rule = "programs: every .templ file of the repository (generator text tie) plus grammar-generated templ files (internal/tgen: all node kinds, six attribute kinds nested under conditionals, class/style/URL/spread sinks, if/else-if/else, for, switch, calls with and without blocks, children, hand-written callees, raw Go, comments, script/style elements with {{ }}, random single-/multi-line layout) plus templ files from the fragment grammar of the proof layer (tgen.Opts.Fragment: what coq/model/IrFragPrint.v's to_frag accepts), rendered with error-biased argument tuples, plus event-handler files (handlers.go: script templates with definitions called from on*/hx-on: attributes, the same attribute name in both branches of a conditional attribute with different scripts, plain next to conditional handlers, scripts reused across elements, loop iterations, callees and child blocks) plus long-static-run files (longrun.go: uninterrupted static markup of 1 KiB .. 64 KiB and more, mostly multi-byte text with quotes, backslashes and unprintable characters, the same content shifted by 0..3 bytes; every third of them not valid UTF-8) plus files that are NOT valid UTF-8 (nonutf8.go: Latin-1 and Windows-1252 text, lone continuation bytes, truncated, overlong and surrogate forms, bytes C0 C1 F5..FF, alone and next to valid multi-byte characters, in text, double- and single-quoted constant attribute values, HTML comments, one-line and multi-line style/script content, around {{ }} parts and in the doctype, each piece without and with a quote/backslash/control character, sequences split over two pieces; a one-line sweep position x kind first; script template bodies and css template constant values with such bytes) plus element-vocabulary files (vocab.go: every element name of the live parser tables, of the model's tables, the custom names and a sample of the other HTML standard names, each between text / expressions / inline, block and void elements / control flow / calls with no, blank and line-break separation, in every kind of parent); inputs: argument tuples from a pool of adversarial strings x the destination of the render (dest.go: a fresh bytes.Buffer, then caller-owned bufio.Writers of 16..65536 bytes, strings.Builder, Write-only writer and OS pipe that persist across the cases of a process, the runtime pool emptied by the GC now and then); distinct non-trivial = distinct (template, argument tuple) pairs rendered by the compiled generated code"
 	lap("start")
 	c.Proofs()
 	lap("proofs")
